@@ -50,7 +50,8 @@ def gen_script(rng, maxlen=30, maxdepth=4, fns="fgh", loops=True, reads=True, au
             elif r < 0.38 and aug and "a" in bound:
                 out.append(["aug_a", nv()])
             elif r < 0.43 and ann:
-                out.append(["ann_c", nv()])
+                # c is bound both by an annotated assignment (tag T) and, less often, by a plain one (no tag)
+                out.append(["ann_c" if rng.random() < 0.7 else "bind_c", nv()])
                 bound.add("c")
             elif r < 0.50 and reads:
                 v = rng.choice(sorted(bound))
